@@ -58,3 +58,15 @@ Fixpoint gen_bytes (n : nat) (x : N) : bytes :=
   | S k => let y := lcg x in (y / 16777216)%N :: gen_bytes k y
   end.
 Definition gb (n : N) (seed : N) : bytes := gen_bytes (N.to_nat n) seed.
+
+Lemma skipn_head_nth {A} n (l : list A) w ws : skipn n l = w :: ws -> nth_error l n = Some w.
+Proof.
+  revert l. induction n as [|n IH]; intros l H; cbn in *.
+  - subst. reflexivity.
+  - destruct l; [discriminate|]. cbn. apply IH. exact H.
+Qed.
+Lemma nth_error_firstn_some {A} n (l : list A) i x : nth_error (firstn n l) i = Some x -> nth_error l i = Some x.
+Proof.
+  revert n l. induction i as [|i IH]; intros [|n] [|y l] H; cbn in *; try discriminate; [exact H|].
+  apply (IH n). exact H.
+Qed.
